@@ -19,6 +19,7 @@ package gtab
 import (
 	"encoding/binary"
 	"fmt"
+	"sort"
 
 	"seehuhn.de/go/sfnt/parser"
 )
@@ -185,8 +186,29 @@ func (info *Info) Encode() []byte {
 	}
 
 	if featureListOffset > 0xFFFF || lookupListOffset > 0xFFFF {
-		// The header stores the offsets in 16 bits.
-		panic("gtab: script list and feature list too large")
+		// The header stores the offsets in 16 bits.  Try again with the
+		// largest of the three lists at the end of the table.
+		if 10+len(scriptList) > 0xFFFF {
+			// The offsets inside the script list are stored in 16 bits, too.
+			panic("gtab: script list and feature list too large")
+		}
+		lists := [][]byte{scriptList, featureList, lookupList}
+		order := []int{0, 1, 2}
+		sort.SliceStable(order, func(i, j int) bool {
+			return len(lists[order[i]]) < len(lists[order[j]])
+		})
+		var offsets [3]int
+		total = 10
+		for _, k := range order {
+			if lists[k] != nil {
+				offsets[k] = total
+				total += len(lists[k])
+			}
+		}
+		scriptListOffset, featureListOffset, lookupListOffset = offsets[0], offsets[1], offsets[2]
+		if scriptListOffset > 0xFFFF || featureListOffset > 0xFFFF || lookupListOffset > 0xFFFF {
+			panic("gtab: script list and feature list too large")
+		}
 	}
 
 	buf := make([]byte, total)
